@@ -29,7 +29,7 @@ PARSE = 'xdoctest.parser.DoctestParser.parse'
 
 
 def run(ctx):
-    for fn in (r1_one_namespace, r2_one_exec_per_part, r3_capture, r4_coroutine_driven, r5_tab_expansion):
+    for fn in (r1_one_namespace, r2_one_exec_per_part, r3_capture, r4_coroutine_driven, r5_tab_expansion, r6_contiguous_slices):
         ctx.rep.rule(fn, ctx)
 
 
@@ -391,6 +391,162 @@ def r5_tab_expansion(ctx, rule='C01.R5'):
 
 
 # ---------------------------------------------------------------------------
+CHUNK = 'xdoctest.parser.DoctestParser._package_chunk'
+
+
+def r6_contiguous_slices(ctx):
+    """the parts of a chunk are contiguous slices [0:b1) [b1:b2) ... [bn:None): no source line is dropped or
+    duplicated between parts (default, non-REPL mode).  Invariant: the running start variable always equals
+    the end of the last slice handed out."""
+    rep = ctx.rep
+    f = ctx.func(CHUNK)
+    g = ctx.cfg(f)
+    rd = ctx.rd(f)
+    dom = ctx.dom(g, g.entry)
+    slicer = f.nested.get('slice_example')
+    need(slicer is not None, 'C01.R6: nested slice_example not found')
+    sp = [a.arg for a in slicer.node.args.args]
+    # the slicer cuts both line lists by its first two parameters
+    sl = [x for x in ast.walk(slicer.node) if isinstance(x, ast.Subscript) and isinstance(x.slice, ast.Slice)]
+    ok = len(sl) >= 1 and all(is_name(x.slice.lower, sp[0]) and is_name(x.slice.upper, sp[1]) and x.slice.step is None for x in sl)
+    rep.ob('C01.R6', ctx.loc(slicer, slicer.node), 'slice_example cuts [%s:%s]' % (sp[0], sp[1]), ok,
+           'every line list is cut by the same half-open interval' if ok else 'the slicer does not cut by [start:stop]: %s' % [ctx.src(x) for x in sl], anchor=CHUNK)
+
+    def repl_pol(n):
+        for fa in graph.guard_facts(dom, n):
+            if isinstance(fa.expr, ast.Attribute) and fa.expr.attr == 'simulate_repl':
+                return fa.polarity
+        return None
+    calls = []
+    for n in g.nodes:
+        if n.dup:
+            continue
+        for c in node_calls(n):
+            r = ctx.res.resolve_call(f, c)
+            if r[0] == 'repo' and r[1][0] is slicer and repl_pol(n) is not True:
+                calls.append((n, c))
+    rep.floor('C01.R6', 'slice_example calls (default mode)', len(calls), 2)
+    names = [c.args[0].id for (_, c) in calls if c.args and isinstance(c.args[0], ast.Name)]
+    need(names, 'C01.R6: no slice starts at a local variable')
+    a = max(set(names), key=names.count)
+    for (n, c) in calls:
+        if not (c.args and is_name(c.args[0], a)):
+            rep.ob('C01.R6', ctx.loc(f, c), ctx.src(c), False,
+                   'this slice does not start at the running start `%s` (the stop of the previous slice): lines are skipped or repeated' % a, anchor=CHUNK)
+    calls = [(n, c) for (n, c) in calls if c.args and is_name(c.args[0], a)]
+    call_nodes = [n for (n, _) in calls]
+    # O3: initialised to 0
+    inits = [d for d in rd.defs_of(a) if isinstance(d.value, ast.Constant) and d.value.value == 0 and d.kind == 'assign' and not d.node.frames]
+    ok = bool(inits) and all(dom.dominates(inits[0].node, n) for n in call_nodes)
+    rep.ob('C01.R6', ctx.loc(f, inits[0].node.ast if inits else f.node), '%s = 0 before any slice' % a, ok,
+           'the first slice starts at line 0 of the chunk' if ok else 'the running start is not initialised to 0 before the first slice: leading lines of a chunk can be lost', anchor=CHUNK)
+    # loops that hand out slices
+    loop_heads = []
+    for (n, c) in calls:
+        for fr in n.frames:
+            if fr.kind == 'loop' and fr.head not in loop_heads:
+                loop_heads.append(fr.head)
+    for head in loop_heads:
+        it = head.ast.iter
+        tg = head.ast.target
+        ok_zip = isinstance(it, ast.Call) and is_name(it.func, 'zip') and len(it.args) == 2 and isinstance(it.args[0], ast.Name) and \
+            isinstance(it.args[1], ast.Subscript) and is_name(it.args[1].value, it.args[0].id) and isinstance(it.args[1].slice, ast.Slice) and \
+            isinstance(it.args[1].slice.lower, ast.Constant) and it.args[1].slice.lower.value == 1 and it.args[1].slice.upper is None and \
+            isinstance(tg, ast.Tuple) and len(tg.elts) == 2 and all(isinstance(e, ast.Name) for e in tg.elts)
+        need(ok_zip, 'C01.R6: slice loop is not `for a, b in zip(X, X[1:])`: %s' % ctx.src(head.ast.iter))
+        la, lb = tg.elts[0].id, tg.elts[1].id
+        X = it.args[0].id
+        # X = sorted(set([0] + ...)): starts at 0, strictly increasing
+        xdefs = rd.at(head, X)
+        okx = bool(xdefs) and all(_is_sorted_set_with_zero(d.value) for d in xdefs)
+        rep.ob('C01.R6', ctx.loc(f, head.ast), 'break list %s = sorted(set([0] + ...))' % X, okx,
+               'consecutive pairs of a strictly increasing list that starts with 0 tile [0, last break)' if okx else
+               'the break list is not `sorted(set([0] + ...))` (%s): lines before the first break are dropped or slices overlap' % [ctx.src(d.value) if isinstance(d.value, ast.AST) else d.kind for d in xdefs],
+               anchor=CHUNK)
+        entry, cut = graph.region_of_loop(g, head)
+        in_loop = [(n, c) for (n, c) in calls if graph.in_loop_body(n, head.ast)]
+        res = graph.count_events(entry, lambda x: any(x is n for (n, _) in in_loop), lambda x: x is head, efilter=graph.normal_only)
+        (_, lo, hi, _, _) = next(iter(res.values())) if res else (None, 0, 0, None, None)
+        args_ok = all(len(c.args) >= 2 and is_name(c.args[0], la) and is_name(c.args[1], lb) for (_, c) in in_loop) and la == a
+        stores = [d for d in rd.defs_of(la) + rd.defs_of(lb) if graph.in_loop_body(d.node, head.ast) and d.kind != 'iter']
+        ok = (lo, hi) == (1, 1) and args_ok and not stores
+        rep.ob('C01.R6', ctx.loc(f, head.ast), 'one slice [%s:%s] per pair' % (la, lb), ok,
+               'each consecutive pair yields exactly one slice with exactly these bounds' if ok else
+               'pairs are sliced %d..%d times / with other bounds / the bounds are reassigned in the loop' % (lo, hi), anchor=CHUNK)
+        # no slice before the loop (the tiling starts at 0)
+        before = [n for n in call_nodes if not graph.in_loop_body(n, head.ast) and graph.path(n.nsucc(), lambda x: x is head, efilter=graph.normal_only) is not None]
+        rep.ob('C01.R6', ctx.loc(f, head.ast), 'no slice precedes the tiling loop', not before, 'loop starts with nothing handed out yet' if not before else 'a slice precedes the loop', nontrivial=False, anchor=CHUNK)
+        # O2: after the loop  a = b  before the next slice / the exit
+        done = [b for b in head.nsucc() if b.kind == 'branch' and b.attrs['polarity'] == 'done']
+        sync = [d.node for d in rd.defs_of(a) if is_name(d.value, lb) and d.kind == 'assign']
+        later = [n for n in call_nodes if not graph.in_loop_body(n, head.ast)]
+        wit = graph.must_pass(done, lambda x: any(x is n for n in later) or x is g.exit, through=sync, efilter=graph.normal_only)
+        # and b must be initialised to 0 so that a zero-iteration loop leaves a == 0 == X[0] == X[-1]
+        binit = [d for d in rd.defs_of(lb) if isinstance(d.value, ast.Constant) and d.value.value == 0 and not d.node.frames and dom.dominates(d.node, head)]
+        ok = wit is None and bool(binit)
+        rep.ob('C01.R6', ctx.loc(f, head.ast), '%s = %s after the tiling loop' % (a, lb), ok,
+               'after the loop the running start is the last break (also when the loop body never ran: both start at 0)' if ok else
+               ('the running start is not advanced to the last break after the loop: the lines of the last sliced interval are handed out again' if wit is not None else
+                '%s is not initialised to 0: with a single break the running start becomes undefined' % lb),
+               witness=None if wit is None else graph.fmt_path(wit, f.module.relpath), anchor=CHUNK)
+    # O4: slices outside loops advance the start to their own stop
+    outside = [(n, c) for (n, c) in calls if not any(fr.kind == 'loop' for fr in n.frames)]
+    finals = []
+    for (n, c) in outside:
+        q = c.args[1] if len(c.args) > 1 else None
+        is_none = (isinstance(q, ast.Constant) and q.value is None) or (isinstance(q, ast.Name) and rd.at(n, q.id) and all(isinstance(d.value, ast.Constant) and d.value.value is None for d in rd.at(n, q.id)))
+        if is_none:
+            finals.append((n, c))
+            continue
+        need(isinstance(q, ast.Name), 'C01.R6: slice stop is not a local name: %s' % ctx.src(c))
+        sync = [d.node for d in rd.defs_of(a) if is_name(d.value, q.id) and d.kind == 'assign']
+        others = [m for m in call_nodes if m is not n]
+        wit = graph.must_pass(n.nsucc(), lambda x: any(x is m for m in others) or x is g.exit, through=sync, efilter=graph.normal_only)
+        # q not reassigned between the call and the sync
+        qstores = [d.node for d in rd.defs_of(q.id)]
+        dirty = graph.path(n.nsucc(), lambda x: any(x is s_ for s_ in sync), efilter=graph.normal_only, avoid=[]) is not None and \
+            any(graph.path(n.nsucc(), lambda x, qs=qs: x is qs, efilter=graph.normal_only, avoid=sync) is not None for qs in qstores if qs is not n)
+        ok = wit is None and not dirty
+        rep.ob('C01.R6', ctx.loc(f, c), ctx.src(c) + ' then %s = %s' % (a, q.id), ok,
+               'the next slice starts where this one stopped' if ok else
+               'after this slice the running start is not set to its stop before the next slice: lines are duplicated or skipped',
+               witness=None if wit is None else graph.fmt_path(wit, f.module.relpath), anchor=CHUNK)
+    # O5: exactly one final open-ended slice on every path, carrying the want
+    ok = len(finals) == 1
+    if ok:
+        n, c = finals[0]
+        wit = graph.must_pass([g.entry], lambda x: x is g.exit, through=[n], efilter=graph.normal_only)
+        after = graph.path(n.nsucc(), lambda x: any(x is m for m in call_nodes), efilter=graph.normal_only)
+        ok = wit is None and after is None
+    rep.ob('C01.R6', ctx.loc(f, finals[0][1] if finals else f.node), 'final slice [%s:None]' % a, ok,
+           'every path ends with exactly one open-ended slice from the running start: the tail of the chunk is always included' if ok else
+           'the chunk is not always completed by one open-ended slice (%d candidates)' % len(finals), anchor=CHUNK)
+    # O6: no other stores to the running start in default mode
+    for d in rd.defs_of(a):
+        if d.kind == 'iter' or repl_pol(d.node) is True:
+            continue
+        v = d.value
+        legal = (isinstance(v, ast.Constant) and v.value == 0) or isinstance(v, ast.Name)
+        rep.ob('C01.R6', ctx.loc(f, d.node.ast), ctx.src(d.node.ast), legal,
+               'running start set to 0 or to the stop of a slice' if legal else 'the running start is computed (%s): contiguity of the parts is no longer structural' % ctx.src(v), nontrivial=False, anchor=CHUNK)
+    rep.note('repl_mode', 'simulate_repl=True branch is not decided (its first slice starts at ps1_linenos[0], a value-level fact)')
+
+
+def _is_sorted_set_with_zero(v):
+    if not (isinstance(v, ast.Call) and is_name(v.func, 'sorted') and len(v.args) == 1 and not v.keywords):
+        return False
+    inner = v.args[0]
+    if not (isinstance(inner, ast.Call) and is_name(inner.func, 'set') and len(inner.args) == 1):
+        return False
+    e = inner.args[0]
+    if isinstance(e, ast.BinOp) and isinstance(e.op, ast.Add):
+        for side in (e.left, e.right):
+            if isinstance(side, ast.List) and len(side.elts) == 1 and isinstance(side.elts[0], ast.Constant) and side.elts[0].value == 0:
+                return True
+    return False
+
+
+# ---------------------------------------------------------------------------
 from ..selftest import fire, silent      # noqa: E402
 
 DE = 'xdoctest/doctest_example.py'
@@ -421,6 +577,14 @@ VARIANTS = [
          (DE, "                                    asyncio.run(eval(code, test_globals))\n", "                                    eval(code, test_globals)\n")),
     fire('coroutine-dispatch-removed', 'C01.R4',
          (DE, "                            if code.co_flags & CO_COROUTINE == CO_COROUTINE:\n", "                            if False:\n")),
+    fire('breaks-without-zero', 'C01.R6', (PA, "                break_linenos = sorted(set([0] + break_linenos))\n", "                break_linenos = sorted(set(break_linenos))\n")),
+    fire('start-not-advanced-after-loop', 'C01.R6', (PA, "                    example = slice_example(s1, s2)\n                    yield example\n                s1 = s2\n            if want_lines", "                    example = slice_example(s1, s2)\n                    yield example\n            if want_lines")),
+    fire('start-not-advanced-after-eval-split', 'C01.R6', (PA, "                    example = slice_example(s1, s2)\n                    yield example\n                    s1 = s2\n        s2 = None\n", "                    example = slice_example(s1, s2)\n                    yield example\n        s2 = None\n")),
+    fire('final-slice-skips-a-line', 'C01.R6', (PA, "        example = slice_example(s1, s2, want_lines)\n", "        example = slice_example(s1 + 1, s2, want_lines)\n")),
+    fire('final-slice-bounded', 'C01.R6', (PA, "        s2 = None\n\n        example = slice_example(s1, s2, want_lines)\n", "        s2 = len(source_lines) - 1\n\n        example = slice_example(s1, s2, want_lines)\n")),
+    fire('slicer-orig-lines-off-by-one', 'C01.R6', (PA, "            orig_lines = source_lines[s1:s2]\n", "            orig_lines = source_lines[s1 + 1:s2]\n")),
+    fire('start-initialised-to-one', 'C01.R6', (PA, "        s1 = 0\n        s2 = 0\n        if self.simulate_repl:", "        s1 = 1\n        s2 = 0\n        if self.simulate_repl:")),
+    silent('final-none-inlined', (PA, "        s2 = None\n\n        example = slice_example(s1, s2, want_lines)\n", "        example = slice_example(s1, None, want_lines)\n")),
     silent('expandtabs-in-labeller',
            (PA, "        string = string.expandtabs()\n", ""),
            (PA, "    indents = [len(indent) for indent in INDENT_RE.findall(s)]", "    indents = [len(indent) for indent in INDENT_RE.findall(s.expandtabs())]"),
